@@ -81,8 +81,12 @@ def V.kindName : V → String
   | .map _ => "Map"
   | .plain _ => "Plain"
 
-/-- `cmp_kind`: iterables share the slot of the sequences in the ordering -/
-def cmpKindName (k : String) : String := if k = "Iterable" then "Seq" else k
+/-- `cmp_kind`: the regenerated arms say which kinds share a slot in the ordering (iterables share
+    the slot of the sequences); every other kind keeps its own -/
+def cmpKindName (k : String) : String :=
+  match MJ.Gen.cmpKindAlias.lookup k with
+  | some t => t
+  | Option.none => k
 
 /-- position in the declaration order of `ValueKind` (derived `Ord`), from the regenerated table -/
 def kindRank (k : String) : Nat := MJ.Gen.valueKindOrder.idxOf k
